@@ -74,6 +74,7 @@ def ground_axioms(exprs, extra_rounds=1):
                 if dom is not None:
                     body = z3.Implies(z3.And(dom(x), dom(y)), body)
                 ax.append(body)
+                ax.append(z3.Implies(x == y, L[i] == L[j]))
 
     for e in args_of("exp"):
         x = e.arg(0)
@@ -88,15 +89,13 @@ def ground_axioms(exprs, extra_rounds=1):
         ax.append(z3.Implies(z3.And(x > 0, x < 1), e < 0))
         ax.append(z3.Implies(x > 1, e > 0))
     pairwise_mono("log", lambda x: x > 0)
-    # log(exp t) = t and exp(log x)=x for occurring compositions
-    for e in args_of("log"):
-        x = e.arg(0)
-        if z3.is_app(x) and x.decl().name() == "exp":
-            ax.append(e == x.arg(0))
-    for e in args_of("exp"):
-        x = e.arg(0)
-        if z3.is_app(x) and x.decl().name() == "log":
-            ax.append(z3.Implies(x.arg(0) > 0, e == x.arg(0)))
+    # log(exp t) = t and exp(log x) = x, instantiated for every occurring (log, exp) pair
+    for L in args_of("log"):
+        x = L.arg(0)
+        for E in args_of("exp"):
+            t = E.arg(0)
+            ax.append(z3.Implies(x == E, L == t))
+            ax.append(z3.Implies(z3.And(t == L, x > 0), E == x))
     for e in args_of("tanh"):
         x = e.arg(0)
         ax.append(z3.And(e >= -1, e <= 1))
@@ -149,10 +148,46 @@ def ground_axioms(exprs, extra_rounds=1):
             ax.append(z3.Implies(z3.And(same_p, b1 > 0, b2 > 0, p1 < 0, b1 < b2), L[i] > L[j]))
             ax.append(z3.Implies(z3.And(same_p, b1 > 0, b2 > 0, p1 < 0, b1 > b2), L[i] < L[j]))
             ax.append(z3.Implies(z3.And(same_p, b1 == b2), L[i] == L[j]))
+    mono = {"exp", "log", "tanh", "logistic", "log1p", "expm1", "erf", "erf_inv"}
+    for name in apps:
+        if name in mono:
+            continue
+        L = args_of(name)
+        for i in range(len(L)):
+            for j in range(i + 1, len(L)):
+                ax.append(z3.Implies(z3.And(*[L[i].arg(k) == L[j].arg(k) for k in range(L[i].num_args())]), L[i] == L[j]))
     if extra_rounds > 0 and ax:
         # axioms may mention no new applications; one round is enough for ours
         pass
     return ax
+
+
+def _purified_check(cons, ax, timeout_s):
+    """Replace every UF application by a fresh real constant (keeping the ground axioms, which
+    include congruence), leaving pure QF_NRA for nlsat.  unsat is sound; sat/unknown are not used."""
+    allc = list(cons) + list(ax)
+    apps = _collect_apps(allc)
+    terms = []
+    seen = set()
+    for lst in apps.values():
+        for a in lst:
+            if a.get_id() not in seen:
+                seen.add(a.get_id())
+                terms.append(a)
+    # outermost first so nested applications are replaced as a whole before their sub-applications
+    terms.sort(key=lambda t: -len(t.sexpr()))
+    cur = allc
+    for k, t in enumerate(terms):
+        fresh = z3.Real(f"uf!{k}")
+        # t may itself contain already-substituted inner apps only if processed later; handle by re-substituting t
+        cur = [z3.substitute(c, (t, fresh)) for c in cur]
+        terms[k + 1:] = [tt for tt in terms[k + 1:]]
+    tac = z3.Then("simplify", "purify-arith", "elim-term-ite", "solve-eqs", "qfnra-nlsat") if False else None
+    s2 = z3.Solver()
+    s2.set("timeout", int(1000 * timeout_s))
+    for c in cur:
+        s2.add(c)
+    return s2.check(), s2
 
 
 class Session:
@@ -160,35 +195,50 @@ class Session:
         self.timeout_s = timeout_s
         self.queries: list[Query] = []
         self.solver_s = 0.0
+        self.keep_smt2 = False
 
     def _solver(self, timeout_s=None):
         s = z3.Solver()
         s.set("timeout", int(1000 * (timeout_s or self.timeout_s)))
         return s
 
-    def check_sat(self, name, constraints, axioms_from=None, kind="obligation", timeout_s=None):
+    def check_sat(self, name, constraints, axioms_from=None, kind="obligation", timeout_s=None, purify=True):
         """Is the conjunction of `constraints` satisfiable?  Adds ground axioms for
         UF applications found in constraints (+ axioms_from)."""
         cons = [V.to_z3(c) if not isinstance(c, z3.ExprRef) else c for c in constraints]
         cons = [c for c in cons if not z3.is_true(c)]
         ax = ground_axioms(list(cons) + list(axioms_from or []))
-        s = self._solver(timeout_s)
-        for c in cons:
-            s.add(c)
-        for a in ax:
-            s.add(a)
+        full_t = timeout_s or self.timeout_s
+        has_uf = bool(ax)
+        first_t = min(full_t, 4.0) if (purify and has_uf) else full_t
+
+        def run(t):
+            s_ = self._solver(t)
+            for c in cons:
+                s_.add(c)
+            for a in ax:
+                s_.add(a)
+            return s_.check(), s_
         t0 = time.time()
         if any(z3.is_false(c) for c in cons):
-            r = z3.unsat
+            r, s = z3.unsat, self._solver(1)
         else:
-            r = s.check()
+            r, s = run(first_t)
+        verdict = str(r)
+        if verdict == "unknown" and purify and has_uf:
+            r2, s2 = _purified_check(cons, ax, full_t)
+            if str(r2) == "unsat":  # sound: purification only forgets facts about the UFs beyond the axioms
+                verdict, s = "unsat", s2
+                kind = kind + ":purified-nlsat"
+            elif first_t < full_t:
+                r, s = run(full_t)
+                verdict = str(r)
         dt = time.time() - t0
         self.solver_s += dt
-        verdict = str(r)
         model = s.model() if verdict == "sat" else None
         q = Query(name, verdict, dt, model, len(ax), kind)
         q._smt2 = None
-        if verdict != "sat" or True:
+        if self.keep_smt2:
             try:
                 q._smt2 = s.to_smt2()
             except Exception:
